@@ -26,7 +26,15 @@ RULE = ('pyipmi.ipmitool.main() is run in-process (sys.argv, stdout/stderr, pyip
         'and with the values that were generated; (3) raw requests of arbitrary LUN / NetFn / bytes incl. out-of-range and '
         'malformed words (request seen by the BMC, stdout, exit); (4) lookup vectors (prefixes, unknown words, words containing '
         'blanks); (5) int(s,0)/int(s) of CPython vs the model on random literal-like strings.  A case is distinct by its argv '
-        '(+ fault); it is non-trivial when the handler was reached or an option was given.')
+        '(+ fault); it is non-trivial when the handler was reached or an option was given.  (0) HISTORIES, run first: 2-4 '
+        'consecutive main() runs in one process - every option (-t -b -r -I -o -H -p -U -P -L -v -J) given in one run and absent '
+        'in the next, in both orders and alternating; every session option left out next to -H; failing runs (completion '
+        'code, time-out, bad option, unknown command, unknown interface) before good ones; seeded option vectors - each '
+        'history executed in a pristine child process; every run judged on its own by the option oracle and by independence '
+        '(session handed to the interface, launch parameters, requests and their targets, exit status, open/close calls, '
+        'output must equal those of the same run alone in a new process) and compared with the Lean model of main; replay = '
+        'the whole sequence.  A violation seen by a single-run stream is re-run alone in a pristine child; when it does '
+        'not show there, the preceding runs it needs are searched for and put into the replay (signature C20:history:*).')
 ASSUMPTIONS = [
     'getopt.getopt, int(s, 0) / int(s) and str.split are modelled in Lean (Model/Cli.lean) and tied to CPython by this run '
     '(ASCII digits; Unicode decimal digits are not modelled or generated)',
@@ -34,14 +42,16 @@ ASSUMPTIONS = [
     'the tool installs with the tuples the literal was generated from',
     'request contents of the individual API operations are C07\'s subject; here the CLI is compared with the direct API call '
     'on an identical BMC (same requests, same targets), and chassis control additionally with the IPMI option codes',
-    '"completes without a Python error" is observed per entry on the stub BMC and reported as observation '
-    '(distribution keys obs:*), not proved; only unresolved table entries (AttributeError / TypeError from the call '
-    'itself) are violations',
     '`sdr list` prints a sensor\'s completion code in that sensor\'s row and continues: counted as "message printed", '
     'the exit status of that run is not judged',
+    'between two main() runs of one process the harness resets what the tool itself keeps per process and the property does '
+    'not name: the module global json_output (-J) and the log handlers main() adds (-v)',
+    'a table entry must not end with a Python error on a fault-free run against either stub profile (violation '
+    'C20:python-error:*); with an injected fault, a rejected literal or missing arguments a Python error is an observation',
     'the as-shipped counter-example theorems are about a frozen copy of the pinned table (Lemmas/CliAsShipped.lean)',
 ]
-TRUSTED = ['harness/translate/cli.py', 'harness/sim/bmc20.py', 'harness/props/c20.py']
+TRUSTED = ['harness/translate/cli.py', 'harness/sim/bmc20.py', 'harness/props/c20.py',
+           'harness/sim/pristine.py (fork server: histories run in a process that has not run main() yet)']
 
 _snap = None
 
@@ -85,6 +95,7 @@ class Obs(object):
         self.iface = None
         self.created = None
         self.bmc = None
+        self.py_error = False       # ended with an exception that is not one of pyipmi.errors (nor SystemExit)
 
     @property
     def requests(self):
@@ -93,6 +104,11 @@ class Obs(object):
     @property
     def targets(self):
         return list(self.iface.targets) if self.iface else []
+
+
+def _library_errors():
+    import pyipmi.errors as E
+    return tuple(c for c in vars(E).values() if isinstance(c, type) and issubclass(c, BaseException))
 
 
 def _known_ifaces():
@@ -173,6 +189,7 @@ def run_cli(argv, profile='full', faults=None):
                 o.exit = ('exit', 0 if code is None else code)
             except BaseException as e:  # noqa
                 o.exit = ('raise', type(e).__name__, str(e)[:200])
+                o.py_error = not isinstance(e, _library_errors())
             o.stdout = out.getvalue()
     finally:
         pyipmi.interfaces.create_interface = real_ci
@@ -279,6 +296,8 @@ def _sdr_list(ipmi):
         it = ipmi.sdr_repository_entries
     elif d.supports_function('sensor'):
         it = ipmi.device_sdr_entries
+    if it is None:
+        return          # the device has neither an SDR repository nor sensors: nothing to list
     for s in it():
         try:
             _sdr_reading(ipmi, s, False)
@@ -404,11 +423,21 @@ def judge_entry_run(ctx, name, idx, argv, words_ok, api_fn, profile, faults, unr
         ctx.violate('C20:lookup:%s' % name, 'the words of entry %r do not reach its handler' % name, case,
                     expected='handler %d' % idx, observed=json.dumps(o.launch) if o.launch else str(o.exit))
         return o
-    if api_fn is None:
-        return o
     if not words_ok:
         # a literal the entry's own conversion rejects: Python error by construction
-        ctx.count('obs:literal-rejected:%s:%s' % (name, o.exit[1] if o.exit[0] == 'raise' else _exit_class(o)))
+        if api_fn is not None:
+            ctx.count('obs:literal-rejected:%s:%s' % (name, o.exit[1] if o.exit[0] == 'raise' else _exit_class(o)))
+        return o
+    # ---- property clause 1: against a conforming BMC (no injected fault) the entry completes without a Python error
+    if not faults and o.exit[0] == 'raise' and o.py_error and \
+            not (name in unresolved_names and o.exit[1] in PY_ERR_OF_RESOLUTION):
+        ctx.violate('C20:python-error:%s:%s' % (name, o.exit[1]),
+                    'entry %r ends with a Python error (%s: %s) against a conforming BMC (%s profile, no fault injected) '
+                    'after %d request(s)' % (name, o.exit[1], o.exit[2], profile, len(o.requests)), case,
+                    expected='completes (or ends with a message and a non-zero exit status)',
+                    observed={'exit': o.exit, 'requests': o.requests[:6], 'stdout_tail': o.stdout[-120:]})
+        return o
+    if api_fn is None:
         return o
     target = o.launch['target']
     a_out, a_reqs, a_tgts = run_api(api_fn, target if target is not None else 0x20, None, profile, faults)
@@ -1107,6 +1136,9 @@ def _histories(ctx):
     drv = ctx.driver('drv_c20')
     nruns = 0
     for label, runs in gen_histories(ctx, rng, _known_ifaces()):
+        if ctx.time_left() < 40:
+            ctx.notes.append('history stream cut short by the time budget')
+            break
         try:
             obs = p.call('runs', _strip(runs))
             alone = [p.call('runs', _strip([r]))[0] for r in runs]
@@ -1143,8 +1175,8 @@ def _histories(ctx):
             continue
         k, sig, what, exp, got, needs = found[0]
         if not needs:
-            r = runs[k]
-            ctx.violate(sig, what, {'kind': 'options', 'argv': r['argv']}, expected=exp, observed=got)
+            # the run alone shows it as well: not a matter of history
+            ctx.violate(sig, what, {'kind': 'history', 'label': 'single run', 'runs': [runs[k]]}, expected=exp, observed=got)
             continue
         runs2, obs2 = shrink_history(p, runs, sig)
         k, sig, what, exp, got, _ = [f for f in history_findings(runs2, obs2[0], obs2[1]) if f[1] == sig][0]
